@@ -13,6 +13,11 @@ class Res(object):
         self.broken, self.violations, self.known, self.cov, self.notes = [], [], [], {}, []
 
 
+import subprocess  # noqa: E402
+# the model side must be the one the current tree defines
+subprocess.run(["/venv/bin/python", "tools/gen_tables.py"], stdout=subprocess.DEVNULL, check=True)
+subprocess.run(["/venv/bin/python", "tools/gen_sites.py"], stdout=subprocess.DEVNULL, check=True)
+subprocess.run(["lake", "build", "orqdriver"], cwd=os.path.join(VERIF, "lean"), stdout=subprocess.DEVNULL, check=True)
 a, b = int(sys.argv[1]), int(sys.argv[2])
 props = sys.argv[3:] or sorted(registry.PROPS)
 bad = 0
